@@ -162,21 +162,29 @@ def run_call(ct, call):
     from cotengra.pathfinders import path_basic, path_labels, path_kahypar, path_random
     if api.startswith("gen:"):
         name = api[4:]
-        if name == "rand_equation":
-            r = utils.rand_equation(6, 3, n_out=1, n_hyper_in=1, seed=seed)
-            return (r[0], r[1], sorted(r[3].items()))
-        if name == "tree_equation":
-            r = utils.tree_equation(7, n_outer=2, seed=seed)
-            return (r[0], r[1], sorted(r[3].items()))
-        if name == "randreg_equation":
-            r = utils.randreg_equation(8, 3, seed=seed)
-            return (r[0], r[1], sorted(r[3].items()))
-        if name == "perverse_equation":
-            r = utils.perverse_equation(6, seed=seed)
-            return (r[0], r[1], sorted(r[3].items()))
-        if name == "lattice_equation":
-            r = utils.lattice_equation([2, 3], seed=seed)
-            return (r[0], r[1], sorted(r[3].items()))
+        eqgens = {
+            "rand_equation": lambda: utils.rand_equation(6, 3, n_out=1, n_hyper_in=1, seed=seed),
+            "tree_equation": lambda: utils.tree_equation(7, n_outer=2, seed=seed),
+            "randreg_equation": lambda: utils.randreg_equation(8, 3, seed=seed),
+            "perverse_equation": lambda: utils.perverse_equation(6, seed=seed),
+            "lattice_equation": lambda: utils.lattice_equation([2, 3], seed=seed),
+        }
+        if name in eqgens:
+            def frozen(r):
+                return (tuple(map(tuple, r[0])), tuple(r[1]), tuple(sorted(r[3].items())))
+            r = eqgens[name]()
+            first = frozen(r)
+            if kw.get("repeat"):
+                # the caller edits what it was given (in place), then asks again with the same arguments and seed
+                try:
+                    if r[0]:
+                        r[0][0].append("zz") if isinstance(r[0][0], list) else None
+                    r[1].append("zz") if isinstance(r[1], list) else None
+                    r[3]["zz"] = 7
+                except Exception:
+                    pass
+                return ("REPEAT", first, frozen(eqgens[name]()))
+            return first
         if name == "make_rand_size_dict_from_inputs":
             return sorted(utils.make_rand_size_dict_from_inputs(make_net("ring8")[0], seed=seed).items())
         if name == "make_arrays_from_inputs":
